@@ -98,7 +98,7 @@ CHECKS["C19"] = cfg(
                    "json_roundtrips": 30000, "oneorset_checks": 10000, "oneorset_rejected_duplicates": 1000, "oneormany_checks": 5000, "nontrivial": 30000000},
          "thorough": {"oset_exhaustive_sequences": 1000000000, "oset_closure_steps": 50000, "oset_rand_steps": 3000000, "nontrivial": 1000000000}},
     thorough=[{"flavour": "checked", "shards": 16, "timeout": 3000},
-              {"flavour": "miri", "tier": "quick", "shards": 16, "timeout": 3600, "args": {"scale": 1}}],
+              {"flavour": "miri", "tier": "quick", "shards": 16, "timeout": 14400, "args": {"scale": 1}}],
     assumptions=["iter_mut_unchecked/head_mut/tail_mut/clear are documented as invariant-breaking and not part of the histories",
                  "replace(cur, upd) with cur absent and upd's key present follows the list model of DESIGN.md: upd replaces the entry holding its key, flag true"],
 )
@@ -116,7 +116,7 @@ CHECKS["C15"] = cfg(
            {"flavour": "checked", "package": "vhs", "bin": "c15s", "shards": 8, "timeout": 600}],
     thorough=[{"flavour": "checked", "shards": 16, "timeout": 3000},
               {"flavour": "tsan", "tier": "quick", "shards": 8, "timeout": 3000, "args": {"scale": 1000}},
-              {"flavour": "miri", "tier": "quick", "shards": 16, "timeout": 3600, "args": {"scale": 5, "parts": 6}},
+              {"flavour": "miri", "tier": "quick", "shards": 16, "timeout": 14400, "args": {"scale": 5, "parts": 6}},
               {"flavour": "checked", "package": "vhs", "bin": "c15s", "shards": 16, "timeout": 3000}],
     assumptions=["the public_key argument of sign only needs to carry alg/curve",
                  "StrongholdStorage is exercised by the separate stronghold stage (harness/vhs, bin c15s; quick and thorough); Miri cannot cross its FFI",
@@ -168,7 +168,7 @@ CHECKS["C04"] = cfg(
                    "remove_method_some": 5000, "insert_service_ok": 4000, "attach_true": 8000, "detach_true": 3000, "start_accepted": 2000, "walks": 2000, "nontrivial": 500},
          "thorough": {"op_steps": 10000000, "distinct_exact": 10000000, "state_checks": 500000, "walks": 100000}},
     thorough=[{"flavour": "checked", "shards": 16, "timeout": 3000},
-              {"flavour": "miri", "tier": "quick", "shards": 16, "timeout": 3600, "args": {"scale": 1}}],
+              {"flavour": "miri", "tier": "quick", "shards": 16, "timeout": 14400, "args": {"scale": 1}}],
     assumptions=["collections are compared as multisets (order is not part of the statement)",
                  "for genuinely ambiguous queries any matching entry is accepted",
                  "remove_method returning None may still drop dangling references with exactly that id (documented behaviour)",
@@ -199,7 +199,7 @@ CHECKS["C12"] = cfg(
                    "status_oob": 5, "nontrivial": 12300},
          "thorough": {"table_cases": 40000, "set_false_with_set_neighbours": 100000, "oob_probes": 50000, "status_matching": 9000, "nontrivial": 41000}},
     thorough=[{"flavour": "checked", "shards": 16, "timeout": 3000},
-              {"flavour": "miri", "tier": "quick", "shards": 16, "timeout": 3600, "args": {"scale": 1}}],
+              {"flavour": "miri", "tier": "quick", "shards": 16, "timeout": 14400, "args": {"scale": 1}}],
     assumptions=["MSB-first bit order as in the W3C draft", "any Err variant is accepted where an error is required",
                  "a refused un-revoke may return Ok as long as the entry stays set"],
 )
@@ -213,7 +213,7 @@ CHECKS["C20"] = cfg(
          "thorough": {"multi_cases": 400000, "multi_ok": 100000, "orders_enumerated_exhaustively": 150000, "jwk_docs_checked": 150000, "threaded_cases": 6000}},
     thorough=[{"flavour": "checked", "shards": 16, "timeout": 3000},
               {"flavour": "tsan", "tier": "quick", "shards": 8, "timeout": 3000, "args": {"scale": 1000}},
-              {"flavour": "miri", "tier": "quick", "shards": 16, "timeout": 3600, "args": {"scale": 1}}],
+              {"flavour": "miri", "tier": "quick", "shards": 16, "timeout": 14400, "args": {"scale": 1}}],
     assumptions=["fragment '#0' and the exact relationship set of a did:jwk document are not demanded by the statement (counted)",
                  "liveness only as bounded progress: every gated future completes once all gates are open"],
 )
@@ -226,7 +226,7 @@ CHECKS["C10"] = cfg(
                    "reparse_checks": 800, "pairs_checked": 50000, "pairs_equal_across_routes": 300, "jwk_decoded": 3, "random_strings": 16000, "nontrivial": 10000},
          "thorough": {"exhaustive_strings": 100000000, "core_accepted_clean": 130000, "url_accepted_clean": 390000, "pairs_checked": 1700000, "nontrivial": 700000}},
     thorough=[{"flavour": "checked", "shards": 16, "timeout": 3000},
-              {"flavour": "miri", "tier": "quick", "shards": 16, "timeout": 3600, "args": {"scale": 1}}],
+              {"flavour": "miri", "tier": "quick", "shards": 16, "timeout": 14400, "args": {"scale": 1}}],
     assumptions=["rejecting a valid DID/DID URL is counted (url_rejected_ref_valid), not a violation: the statement constrains accepted strings",
                  "HEXDIG is taken case-insensitively; a leading ':' or '::' inside a method-specific-id is valid ABNF"],
 )
